@@ -294,6 +294,23 @@ def specs(
         sp["extra_pars"] = {k: pool[k] for k in keys}
     if draw(st.integers(0, 5)) == 0:
         sp["array_params"] = True  # honoured by NumPy-only steps (spec.step_numpy)
+    if draw(st.integers(0, 7)) == 0:
+        # a rare conjunction made less rare: one-segment link fed by an interior ramp, lane change right after it,
+        # merging and lane-drop parameters both given
+        ramps = [o for o in origins if S.in_links(sp, o["node"])]
+        if ramps:
+            o = ramps[draw(st.integers(0, len(ramps) - 1))]
+            l = S.out_links(sp, o["node"])[0]
+            l["N"] = 1
+            if l.get("vsl") is not None:
+                l["vsl"] = [k for k in l["vsl"] if k == 0]
+            outs = S.out_links(sp, l["down"])
+            if len(outs) == 1 and outs[0]["lam"] == l["lam"]:
+                outs[0]["lam"] = l["lam"] + draw(st.sampled_from([-1, 1])) if l["lam"] > 1 else 2
+            if pars["delta"] is None:
+                pars["delta"] = draw(fl(0, 0.1))
+            if pars["phi"] is None:
+                pars["phi"] = draw(fl(0, 5))
     if names == "mixed":
         names = draw(st.sampled_from(["id", "id", "id", "drawn", "drawn", "drawn", "clash"]))
     if names == "drawn":
